@@ -204,6 +204,15 @@ def run_V(records, w0, salt):
             want = A(fn(x))
             common.compare_value("C18.V." + name, name, A(got).T, want, step=i)
             n += 1
+        elif name == "integrate_log_conditional_y" and rec["p"] in w0.slots and not w0.slots[rec["p"]].tainted \
+                and w0.slots[rec["p"]].R > 1 and not rec.get("callable"):
+            pp = w0.slots[rec["p"]].obj
+            pcls = type(pp)
+            y = jnp.asarray(rec["y"])
+            got = _wrap("V", lambda: jax.vmap(lambda S, m, yi: o.integrate_log_conditional_y(pcls(Sigma=S[None], mu=m[None]), y=yi[None])[0])(pp.Sigma, pp.mu, y))
+            want = A(o.integrate_log_conditional_y(ref.clone(pp), y=y))
+            common.compare_value("C18.V.integrate_log_conditional_y", name, A(got), want, step=i)
+            n += 1
         elif name == "get_conditional_mu" and s.cls not in model.APPROX:
             x = jnp.asarray(rec["x"])
             got = _wrap("V", lambda: jax.vmap(lambda xi: o.get_conditional_mu(xi[None])[:, 0])(x))  # [N, R, Dy]
@@ -377,7 +386,7 @@ def gen_detail(mode, records, seed, k, cfg, w0):
         if mode == "J2":
             return {"cut": cut}
         if mode == "J4":
-            faults, n = gen.fault_schedule(seed, k, records[:cut], cfg, kinds=("warm",))
+            faults, n = gen.fault_schedule(seed, k, records[:cut], cfg, kinds=("warm", "warm"), restore_vias=("dict", "flatten"))
             return {"cut": cut, "faults": {str(a): b for a, b in faults.items()}}
         if mid is None:
             return None
